@@ -1628,7 +1628,9 @@ def _t_eval(target, _t, scope):
             # handle the rest of the t_path in recursive calls
             cur = []
             todo = TType()
-            todo.__ops__ = (root,) + t_path[i+2:]
+            # the rest of the path applies to each child: an S-rooted path
+            # continues from the child like a T-rooted one, not from the scope
+            todo.__ops__ = (T if root is S else root,) + t_path[i+2:]
             for child in nxt:
                 try:
                     cur.append(_t_eval(child, todo, scope))
